@@ -91,8 +91,9 @@ PROPS = {
     },
     "C16": {
         "harnesses": [{"name": "lockhash", "quick": 320000, "thorough": 1600000, "fuzz_runs": 200000},
-                      {"name": "lockhash_boost", "quick": 320000, "thorough": 1600000, "fuzz_runs": 200000}],
-        "assumptions": [SC, MAP_ASSUME, "std::mutex / std::recursive_mutex traffic is scheduled through the pthread interposers. Tiny tables: Cuckoo initial size 1-4 with probe-set size 2-4 and colliding injective hash tuples; Striped resizing policies single_bucket_size_threshold<0..2> and rational load factors (StripedSet clamps the initial capacity to 16, so resizes are forced by the policy and a shifted hash). A probe walks the bucket tables at quiescent points (no key twice, element in the bucket its hash selects, probe-set bounds, size() = linked elements)."],
+                      {"name": "lockhash_boost", "quick": 320000, "thorough": 1600000, "fuzz_runs": 200000},
+                      {"name": "lockhash_wide", "quick": 160000, "thorough": 1600000, "fuzz_runs": 100000}],
+        "assumptions": [SC, MAP_ASSUME, "lockhash_wide: the Cuckoo containers again with 8 keys (hash tuples with a low-bit bijection only) and with every key-predicate and hash-functor call as an extra scheduling point, i.e. pre-emption inside the critical sections where probe sets are plain memory: a probe set modified without its cell lock shows up as a lost or duplicated element.", "std::mutex / std::recursive_mutex traffic is scheduled through the pthread interposers. Tiny tables: Cuckoo initial size 1-4 with probe-set size 2-4 and colliding injective hash tuples; Striped resizing policies single_bucket_size_threshold<0..2> and rational load factors (StripedSet clamps the initial capacity to 16, so resizes are forced by the policy and a shifted hash). A probe walks the bucket tables at quiescent points (no key twice, element in the bucket its hash selects, probe-set bounds, size() = linked elements)."],
     },
     "C17": {
         "harnesses": [{"name": "rehash", "variants": list(range(0, 9)) + list(range(13, 27)), "quick": 120000, "thorough": 800000, "fuzz_runs": 0},
